@@ -18,8 +18,11 @@ import (
 // and checked by MerkleProve(path, root). For every number of records k and every record j the served
 // proof must verify against the committed root and yield exactly the record.
 // Leaf hashes are HashLeaf(record), which is what NativeService.PutMerkleVal appends.
-// No collision-resistance assumption: if two records hash alike (or are equal) getIndex picks the first
-// match, and the check still demands that the proof verifies and returns the requested record.
+// getIndex locates a record by its leaf hash and takes the FIRST match. Two cases are checked:
+//   * the requested record's leaf hash differs from the hashes of all earlier records (assumed: distinct
+//     records do not collide under SHA-256): ZZ_C08_CrossStateProofAgreesWithRoot;
+//   * the requested record is a byte-for-byte duplicate of an earlier one: the proof is then built for the
+//     earlier position and must still verify and yield the record: ZZ_C08_CrossStateProofDuplicate.
 // ---------------------------------------------------------------------------------------------
 
 // record lengths vary with the position (1..9 bytes, and one long record) so that leaf pre-images of
@@ -64,6 +67,9 @@ func ZZ_C08_CrossStateProofAgreesWithRoot() {
 	for i := range recs {
 		hashes[i] = HashLeaf(recs[i]) // NativeService.PutMerkleVal
 	}
+	for i := 0; i < j; i++ {
+		zzsym.Assume(hashes[i] != hashes[j]) // no earlier record collides with the requested one (duplicates: see below)
+	}
 	root := TreeHasher{}.HashFullTreeWithLeafHash(hashes) // executeBlock
 	zzsym.Assert(root == zz8MTH(hashes), "committed cross-state root = RFC 6962 tree hash of the record hashes")
 	levels := MerkleHashes(hashes, depth(k))
@@ -81,6 +87,31 @@ func ZZ_C08_CrossStateProofAgreesWithRoot() {
 	if j == k-1 && k%2 == 1 && k > 1 {
 		zzsym.Cover("cross-proof-promoted-leaf") // the odd last leaf is promoted without a sibling
 	}
+}
+
+// The requested record b is an exact duplicate of an earlier record a (the same bytes were emitted twice
+// in one block): the served proof is the one of position a and must verify and yield the record.
+func ZZ_C08_CrossStateProofDuplicate() {
+	K := zzsym.Param("K")
+	k := 2 + zzsym.Choose("k", K-1)
+	b := 1 + zzsym.Choose("b", k-1)
+	a := zzsym.Choose("a", b)
+	recs := zz8Records(k)
+	recs[b] = append([]byte(nil), recs[a]...)
+	hashes := make([]common.Uint256, k)
+	for i := range recs {
+		hashes[i] = HashLeaf(recs[i])
+	}
+	for i := 0; i < a; i++ {
+		zzsym.Assume(hashes[i] != hashes[a])
+	}
+	root := TreeHasher{}.HashFullTreeWithLeafHash(hashes)
+	path, err := MerkleLeafPath(recs[b], hashes)
+	zzsym.Assert(err == nil, "a proof is served for a record that occurs twice")
+	val, err := MerkleProve(path, root[:])
+	zzsym.Assert(err == nil, "the proof served for a duplicated record verifies against the committed root")
+	zzsym.Assert(bytes.Equal(val, recs[b]), "the proof served for a duplicated record yields exactly the record")
+	zzsym.Cover("cross-duplicate-done")
 }
 
 // a record that is not in the block gets no proof
